@@ -97,6 +97,22 @@ Theorem C03_insert_stitch_edges : forall s b first last lastk end_block added_ft
   if is_code s end_block && bkind_eqb lastk KCode then cfg_add (mk_edge' (NB last) (NB end_block) ET_FALLTHROUGH) c else c.
 Proof. exact insert_stitch_edges. Qed.
 
+(* ===== where a `ret` inside a patch returns =====
+   _update_patch_return_edges_to_match: when the block belongs to function f, the patch has return edges to proxies of its own and f has
+   return sites, each such edge is replaced by one Return edge per return site of f -- the block-targets of the return edges of ALL blocks
+   of f (their union, whichever block is looked at first) -- and nothing else in the patch's CFG changes. *)
+Theorem C03_a_ret_in_a_patch_returns_where_the_function_returns :
+  forall s b pcfg pprox f,
+    aget b (fbb s) = Some f -> patch_ret_edges pcfg pprox <> [] -> function_return_targets s f <> [] ->
+    forall x, In x (fst (update_patch_return_edges s b pcfg pprox)) <->
+      (In x pcfg /\ ~ In x (patch_ret_edges pcfg pprox)) \/
+      (exists e t, In e (patch_ret_edges pcfg pprox) /\ In t (function_return_targets s f) /\ x = mk_edge' (src e) (NB t) ET_RETURN).
+Proof. exact update_patch_return_edges_spec. Qed.
+Theorem C03_the_return_sites_of_a_function :
+  forall s f t, In t (function_return_targets s f) <->
+    exists fb e, In fb (func_blocks s f) /\ In e (cfg s) /\ nid (src e) = fb /\ is_ret e = true /\ tgt e = NB t.
+Proof. exact function_return_targets_In. Qed.
+
 (* ===== the recorded findings, as facts about the faithful model (witnesses: IR/FindingsGen.v, generated from corpus/C03) =====
    The property's statement "the CFG is the control flow of the edited listing" is FALSE of the model on these inputs; each was
    replayed on the implementation (known_findings.json). *)
